@@ -29,6 +29,10 @@ def logpdf(fam: str, x, p: dict):
         return x * np.log(pr) + (1 - x) * np.log1p(-pr)
     if fam == "poisson":
         return stats.poisson.logpmf(x, g("rate"))
+    if fam == "uniform_lw":
+        lo, w = g("low"), g("width")
+        inside = (x > lo) & (x < lo + w)
+        return np.where(inside, -np.log(w) + 0.0 * x, -np.inf)
     raise ValueError(fam)
 
 
@@ -101,6 +105,11 @@ def default_bijector(fam: str, p: dict):
     substrate, float64) — TFP's bijector arithmetic is trusted base for this case."""
     import tensorflow_probability.substrates.numpy.distributions as nd
 
+    if fam == "uniform_lw":
+        lo, w = np.asarray(p["low"], np.float64), np.asarray(p["width"], np.float64)
+        b = nd.Uniform(low=lo, high=lo + w).experimental_default_event_space_bijector()
+        return (lambda t: np.asarray(b.forward(np.asarray(t, np.float64))),
+                lambda t: np.asarray(b.forward_log_det_jacobian(np.asarray(t, np.float64), event_ndims=0)))
     cls = {"gamma": nd.Gamma, "exponential": nd.Exponential, "beta": nd.Beta, "halfnormal": nd.HalfNormal,
            "lognormal": nd.LogNormal, "invgamma": nd.InverseGamma, "normal": nd.Normal}[fam]
     d = cls(**{k: np.asarray(v, np.float64) for k, v in p.items()})
